@@ -6,6 +6,7 @@ package randomness
 // /verif/properties.jsonl, independently of the code under test.
 
 import (
+	"math/big"
 	"encoding/json"
 	"fmt"
 	"io/ioutil"
@@ -206,8 +207,10 @@ func refRuns(b []bool) (float64, float64) {
 			v++
 		}
 	}
-	pi := float64(ones) / float64(n)
-	V := (float64(v) - 2*float64(n)*pi*(1-pi)) / (2 * math.Sqrt(float64(n)) * pi * (1 - pi))
+	// pi(1-pi) from the exact counts (ones*zeros/n^2): no cancellation when pi is close to 0 or 1
+	pq := new(big.Rat).SetFrac(big.NewInt(int64(ones)*int64(n-ones)), big.NewInt(int64(n)*int64(n)))
+	w, _ := pq.Float64()
+	V := (float64(v) - 2*float64(n)*w) / (2 * math.Sqrt(float64(n)) * w)
 	return math.Erfc(math.Abs(V) / math.Sqrt2), math.Erfc(V/math.Sqrt2) / 2
 }
 
@@ -848,6 +851,9 @@ func (c *hCtx) runSeqCheck(name string, sc seqCheck) {
 				}
 				if name == "dft" && n > 2000 && c.req.Budget != "thorough" {
 					continue
+				}
+				if name == "blockfreq" && p > n {
+					continue // block length above the sequence length: not an admissible parameter (the function refuses it)
 				}
 				in := map[string]interface{}{"family": sq.Name, "n": n, "param": p, "seed": c.req.Seed, "bits": bitsToStr(sq.Bits)}
 				before := len(c.resp.Findings)
